@@ -297,6 +297,8 @@ DIRECTED = [
     ("all(y > 1 for y in xs if y != 5 if 10 // (y - 5) < 100)", ["xs"], {"xs": [7, 5, 0]}),
     ("all(len(v) < 3 for v in [xs, ys])", ["xs", "ys"], {"xs": list(range(40)), "ys": [1]}),
     ("all(v != s for v in [CS, s])", ["s"], {"s": "abcxyz" * 12}),
+    ("{'a': x, **d0}['a'] + {**d0, **{'a': n}}['a'] > 1000", ["x", "n"], {"x": 7, "n": 9}),
+    ("sorted({**{'k': x}, 'k': n, **{'j': 1}}.items()) == [('j', 2)]", ["x", "n"], {"x": 7, "n": 9}),
     ("f'{s!a}' == 'zz'", ["s"], {"s": "Zo\u00eb"}),
     ("f'{s!a:>9}|{s!r:>9}|{s!s:>9}' == 'zz'", ["s"], {"s": "\u03bbx"}),
     ("f'{n!a}{s}' == s", ["n", "s"], {"s": "\u00e9"}),
